@@ -322,6 +322,9 @@ static int runC02(uint64_t seed, long long nwalks) {
         else if (k < 5) { R = starts[r.below((int)starts.size())]; st = posgen::TACTICAL; }
         else if (k < 8) { R = storm[r.below((int)storm.size())]; st = posgen::STORM; }
         else { R = posgen::synthetic(r, r.below(posgen::T_NTEMPLATES)); st = posgen::TACTICAL; }
+        // some walks start with a large half-move clock and prefer reversible moves, so that clocks far above 255
+        // (the width of narrower undo/serialise fields) are reached by play and restored by take-backs
+        if (r.chance(15)) { R.hmc = r.range(180, 420); R.ep = -1; st = posgen::QUIET; rep.add("walks_high_halfmove_clock"); }
         Position P;
         std::string startFen = ref::toFEN(R);
         if (!readFEN(startFen, P)) { rep.add("fen_rejected"); continue; }
@@ -408,6 +411,7 @@ static int runC02(uint64_t seed, long long nwalks) {
             if (!d.empty()) { rep.viol("unmake", hist + " (final unwind, " + std::to_string(stack.size()) + " left) differs:" + d); break; }
             stack.pop_back();
         }
+        rep.stat["max_halfmove_clock"] = std::max<long long>(rep.stat["max_halfmove_clock"], R.hmc);
         int mq = std::max(maxQ[0], maxQ[1]);
         rep.stat["max_queens_one_side"] = std::max<long long>(rep.stat["max_queens_one_side"], mq);
         if (mq >= 6) rep.add("walks_with_6plus_queens");
